@@ -54,6 +54,8 @@ def panic_sites(f):
             m = t["msg"]
             if m in ("DivisionByZero", "RemainderByZero") and _const_nonzero_divisor(f, t):
                 continue
+            if m == "BoundsCheck" and _bounds_discharged(f, bi):
+                continue        # index found by a search over the indexed sequence itself
             if m in ("BoundsCheck", "DivisionByZero", "RemainderByZero"):
                 yield ("assert:" + m, "", t["sp"], bi)
             elif m.startswith("Overflow"):
@@ -84,6 +86,8 @@ def panic_sites(f):
             yield (name, _const_str_arg(t, strs), t["sp"], bi)
         elif t.get("callee_trait") in ("core::ops::index::Index", "core::ops::index::IndexMut"):
             r = t.get("resolved") or ""
+            if len(t["args"]) == 2 and (t.get("callee_self") or "").startswith(("std::vec::Vec", "alloc::vec::Vec", "[")) and _index_from_position(f, t["args"][1], t["args"][0]):
+                continue        # index found by a search over the indexed sequence itself
             yield ("index", (t.get("callee_self") or "").split("<")[0], t["sp"], bi)
         elif sadt in PANICKY_METHODS and name in PANICKY_METHODS[sadt] and c.startswith(("alloc::", "core::", "std::")):
             yield (name, sadt.split("::")[-1], t["sp"], bi)
@@ -101,6 +105,66 @@ def panic_sites(f):
             yield ("step_by", "", t["sp"], bi)
         elif c.startswith("core::ops::function::") or c.startswith("alloc::rc::") and name in ("unwrap_or_clone",):
             continue
+
+
+_POS_PASS = {"iter", "iter_mut", "into_iter", "as_slice", "deref", "as_ref", "borrow", "enumerate", "unwrap", "expect", "branch", "by_ref", "as_mut_slice"}
+
+
+def _index_from_position(f, index_op, seq_op):
+    """the index is the result of `position` / `rposition` (or the counter of `enumerate`) over an iteration of the very
+    sequence that is indexed: it is smaller than the length by construction"""
+    from ..mir import Fn, Flow, op_root, place_fields
+    fn = Fn(f)
+    flow = Flow(fn, extra_pass=lambda t: t.get("callee_name") in _POS_PASS and (t.get("callee") or "").startswith(("core::", "alloc::", "std::")))
+    ri, rs = op_root(index_op), op_root(seq_op)
+    if ri is None or rs is None:
+        return False
+    seq_org = {(o[0], o[1]) for o in flow.origins(rs, ()) if o[0] in ("arg", "call", "agg")}
+    if not seq_org:
+        return False
+    org = flow.origins(ri, tuple(place_fields(index_op["pl"])))
+    if not org:
+        return False
+    for o in org:
+        if o[0] != "call":
+            return False
+        t = fn.term(o[1])
+        if t.get("callee_name") not in ("position", "rposition") or not (t.get("callee") or "").startswith("core::iter::"):
+            return False
+        r0 = op_root(t["args"][0]) if t["args"] else None
+        if r0 is None:
+            return False
+        recv = {(x[0], x[1]) for x in flow.origins(r0, ()) if x[0] in ("arg", "call", "agg")}
+        if not recv or not recv <= seq_org:
+            return False
+    return True
+
+
+def _bounds_discharged(f, bi):
+    """`assert(index < len(seq))` where the index comes from a search over that sequence"""
+    b = f["blocks"][bi]
+    t = b["term"]
+    c = t.get("cond") or {}
+    if c.get("k") not in ("copy", "move") or c["pl"]["p"]:
+        return False
+    lt = None
+    for st in b["stmts"]:
+        if st["k"] == "assign" and st["lhs"]["l"] == c["pl"]["l"] and st["rv"]["k"] == "binop" and st["rv"]["op"] == "Lt":
+            lt = st["rv"]
+    if not lt:
+        return False
+    ln = lt["b"]
+    if ln.get("k") not in ("copy", "move"):
+        return False
+    seq = None
+    for st in b["stmts"]:
+        if st["k"] == "assign" and st["lhs"]["l"] == ln["pl"]["l"] and st["rv"]["k"] == "unop" and st["rv"].get("op") in ("PtrMetadata", "Len"):
+            seq = st["rv"]["a"]
+        elif st["k"] == "assign" and st["lhs"]["l"] == ln["pl"]["l"] and st["rv"]["k"] == "len":
+            seq = {"k": "copy", "pl": st["rv"]["pl"]}
+    if not seq:
+        return False
+    return _index_from_position(f, lt["a"], seq)
 
 
 def _const_nonzero_divisor(f, t):
